@@ -313,7 +313,7 @@ def sel_c04(mm):
     t = set(mm.get("tags", []))
     if mm["stage"] == "depipe":
         return True
-    return bool(t & {"panic", "leaves", "refused", "crash"})
+    return bool(t & {"panic", "leaves", "refused", "crash", "hint"})
 
 
 # --------------------------------------------------------------------------- C11
